@@ -1,5 +1,5 @@
 #!/usr/bin/env python3
-"""refmatrix.py [--root /tmp/refac]: developer tool.  Applies every behaviour-preserving refactoring <root>/C*/out/?/patch.diff to a
+"""refmatrix.py [--root /tmp/refac | --root /verif/refactorings/r1 (scratch files then go to /tmp/refmatrix_<name>)]: developer tool.  Applies every behaviour-preserving refactoring <root>/C*/out/?/patch.diff to a
 scratch worktree, makes sure the suite still passes, and runs ALL 20 quick checks on it: every check that fires is a false
 alarm of the machinery (to be corrected in the rule, never listed as a finding).  Results -> <root>/matrix.jsonl"""
 import glob, json, os, subprocess, sys
@@ -9,8 +9,10 @@ for k, a in enumerate(sys.argv[1:]):
     if a == "--root":
         root = sys.argv[k + 2]
 only = [a for a in sys.argv[1:] if a.startswith("C")]
-WT = root + "/matrix_wt"
-ENV = dict(os.environ, VERIF_REPO=WT, VERIF_CACHE=root + "/matrix_cache", VERIF_OUT=root + "/matrix_out", CARGO_TARGET_DIR=root + "/matrix_target", CARGO_NET_OFFLINE="true")
+scratch = root if root.startswith("/tmp/") else "/tmp/refmatrix_" + os.path.basename(root.rstrip("/"))
+os.makedirs(scratch, exist_ok=True)
+WT = scratch + "/matrix_wt"
+ENV = dict(os.environ, VERIF_REPO=WT, VERIF_CACHE=scratch + "/matrix_cache", VERIF_OUT=scratch + "/matrix_out", CARGO_TARGET_DIR=scratch + "/matrix_target", CARGO_NET_OFFLINE="true")
 
 
 def sh(cmd, cwd=None, env=None):
@@ -22,13 +24,13 @@ sh(["git", "-C", "/repo", "worktree", "remove", "--force", WT])
 rc, out = sh(["git", "-C", "/repo", "worktree", "add", "--detach", WT, "HEAD"])
 assert rc == 0, out
 done = set()
-resf = root + "/matrix.jsonl"
+resf = scratch + "/matrix.jsonl"
 if os.path.exists(resf):
     for l in open(resf):
         done.add(json.loads(l)["id"])
 ids = ["C%02d" % k for k in range(1, 21)]
 try:
-    for d in sorted(glob.glob(root + "/C*/out/[a-h]")):
+    for d in sorted(glob.glob(root + "/C*/out/[a-h]") + glob.glob(root + "/C[0-9][0-9][a-h]")):
         sid = os.path.relpath(d, root).replace("/out/", "")
         if sid in done or (only and sid not in only) or not os.path.exists(d + "/patch.diff"):
             continue
